@@ -223,6 +223,7 @@ static void check(const Case &c) {
     if (pent) COUNT("contains_pentagon");
     if (trans) COUNT("across_antimeridian");
     if (c.res <= 2) COUNT("res<=2");
+    { double mx = 0; for (uint64_t h : c.cells) { LatLng g; if (!cellToLatLng(h, &g)) mx = std::max(mx, fabs(g.lat)); } if (mx > 1.3) COUNT("reaches_latitude>74deg"); if (mx > 1.5) COUNT("reaches_latitude>86deg"); }
     if (nholes && ncomp > 1) COUNT("holes_and_several_components");
 }
 
@@ -248,9 +249,17 @@ static Case draw() {
         case 3: p = gen::pointFaceEdge(c.res); break;
         default: p = gen::pointUniform(); break;
     }
-    if (fabs(p.lat) > 1.0) p.lat = p.lat > 0 ? 1.0 : -1.0;
+    // high latitudes: one case in eight is centred at any distance (log-uniform) from a pole; the footprint never reaches it
+    double latcap = 1.0, reach = 1.25;
+    if (rpick({7, 1}) == 1) {
+        p.lat = (ri(0, 1) ? 1 : -1) * (gen::PI / 2 - gen::logU(4 * gen::cellWidth(c.res) + 1e-6, 0.5));
+        latcap = gen::PI / 2;
+        reach = gen::PI / 2 - 2.5 * gen::cellWidth(c.res);
+        c.loc = 4;
+    }
+    if (fabs(p.lat) > latcap) p.lat = p.lat > 0 ? latcap : -latcap;
     double w = gen::cellWidth(c.res);
-    int kcap = (int)std::floor((1.25 - fabs(p.lat)) / (w * 1.3));  // keep the footprint away from the poles
+    int kcap = (int)std::floor((reach - fabs(p.lat)) / (w * 1.3));  // keep the footprint away from the poles
     int kmax = std::max(0, std::min(KMAX, kcap));
     c.shape = rpick({2, 3, 3, 2, 3, 1});
     H3Index o = gen::cellAt(p, c.res);
@@ -269,7 +278,7 @@ static Case draw() {
     };
     auto farOrigin = [&](int steps) {
         LatLng q = gen::offset(p, std::min(steps * w * 1.1, 0.8), runit() * 6.28);
-        if (fabs(q.lat) > 1.0) q.lat = q.lat > 0 ? 1.0 : -1.0;
+        if (fabs(q.lat) > std::min(latcap, fabs(p.lat) + 1e-9 > 1.0 ? fabs(p.lat) : 1.0)) q.lat = q.lat > 0 ? fabs(p.lat) : -fabs(p.lat);
         return gen::cellAt(q, c.res);
     };
     switch (c.shape) {
